@@ -262,3 +262,66 @@ Contract(target=f'{MPS}::MPS.convert_form', props=['C07', 'C09'], name='MPS.conv
              'TL[i] == FL[i] and TR[i] == FR[i]',
              "FL[i] == {'A': 1., 'B': 0., 'C': 0.5, 'G': 0., 'Th': 1.}[form] and FR[i] == {'A': 0., 'B': 1., 'C': 0.5, 'G': 0., 'Th': 1.}[form]",
              'forall(0, self.L, lambda k: implies(k != i, TL[k] == old(TL)[k] and TR[k] == old(TR)[k] and FL[k] == old(FL)[k] and FR[k] == old(FR)[k]))'])
+
+
+# ---------------------------------------------------------------------------------------------------------------
+from pyvc.contract import List as _List
+# C09: MPS.permute_sites realises the permutation by neighbour swaps: site i ends up at perm[i], for every L and
+# every permutation; the returned truncation error is the sum over the swaps performed.
+# Ghost state: content[k] = original index of the site now at position k (the hook of swap_sites exchanges two
+# neighbouring entries - assumed contract of swap_sites, which the bounded C09 harness checks against dense states);
+# total = accumulated eps of the swaps.  Termination of the sort is not proved (no variant given).
+def _perm_setup(I, env):
+    import z3 as _z
+    from pyvc.values import SArr as _SA
+    k = _z.Int('k!id')
+    L = env['self'].attrs['L']
+    I.ghost['__env__'] = {'content': _SA(L, [_z.Lambda([k], k)], 'int', False), 'total': _z.RealVal(0)}
+
+
+def _swap_hook(I, f, args, kwargs):
+    import z3 as _z
+    from pyvc.values import to_z3 as _t, fresh_real as _fr
+    from pyvc import source as _src
+    from pyvc.interp import ClassVal as _CV
+    i = _t(args[0])
+    g = I.ghost['__env__']
+    c = g['content']
+    L = _t(f.self_obj.attrs['L'])
+    I.oblige('swap-in-range', _z.And(0 <= i, i + 1 < L), {'clause': 'swap_sites(i) is called with 0 <= i < L - 1 (finite MPS)'})
+    a = c.leaves[0]
+    c.leaves = [_z.Store(_z.Store(a, i, _z.Select(a, i + 1)), i + 1, _z.Select(a, i))]
+    eps = _fr('eps')
+    g['total'] = g['total'] + eps
+    mod = _src.get_module('tenpy/linalg/truncation.py')
+    return I.instantiate(_CV(mod, mod.classes['TruncationError']), [eps, _fr('ov')], {})
+
+
+Contract(
+    target=f'{MPS}::MPS.permute_sites', props=['C09'],
+    params={'self': Obj('MPS', MPS, {'L': Int()}), 'perm': _List('int'), 'swap_op': Const('auto'), 'trunc_par': Opaque()},
+    setup=_perm_setup, hooks={f'{MPS}::MPS.swap_sites': _swap_hook},
+    requires=['self.L >= 1 and len(perm) == self.L and not is_none(trunc_par)',
+              'forall(0, len(perm), lambda j: 0 <= perm[j] < len(perm))',
+              'forall2(0, len(perm), lambda p, q: implies(p != q, perm[p] != perm[q]))'],
+    ensures=[
+        # the documented map: the site that was at i is now at perm[i]
+        'forall(0, self.L, lambda i: content[perm[i]] == i)',
+        'forall(0, len(perm), lambda j: perm[j] == old(perm)[j])',          # the argument is copied, not sorted in place
+        'result.eps == total',                                             # error of every swap reported, once
+    ],
+    loops={0: {
+        'inv': ['0 <= i <= self.L - 1 and len(perm) == self.L and self.L == old(self.L)',
+                'forall(0, self.L, lambda k: 0 <= content[k] < self.L)',
+                'forall2(0, self.L, lambda p, q: implies(p != q, content[p] != content[q]))',
+                # the working copy travels with the sites
+                'forall(0, self.L, lambda k: perm[k] == old(perm)[content[k]])',
+                # "keeping everything up to i in strictly ascending order"
+                'forall2(0, i + 1, lambda p, q: implies(p < q, perm[p] < perm[q]))',
+                # once the whole list is ascending it is the identity (lemma: proved in this run)
+                'implies(i >= self.L - 1, forall(0, self.L, lambda k: perm[k] == k))',
+                'trunc_err.eps == total'],
+        'lemmas': ['sorted_perm_identity(perm)'], 'lemmas_pres': ['sorted_perm_identity(perm)'],
+        'ghost_mut': ['content', 'total'],
+    }},
+)
